@@ -33,12 +33,14 @@ HEADER = "From Verif Require Import Gen.Src_Z3 Model.Z3Model."
 
 
 def gen_spec(rng, profile="mixed"):
+    """profiles: mixed | dag (one graph, deeper DAG, offered ahead through lookahead / release_taskgraphs) |
+    busy (running / scheduled / completed tasks holding resources) | odd (zero quantities, two keys of one
+    name, equal worker names, zero-quantity requests) | single (one worker)"""
     nres = rng.choice([1, 1, 2])
     now = rng.randint(0, 8)
     npools = rng.choice([1, 1, 2])
-    nworkers = rng.choice([1, 1, 2, 2, 3]) if profile != "single" else 1
+    nworkers = 1 if profile == "single" else rng.choice([1, 1, 2, 2, 3])
     pools = [[] for _ in range(npools)]
-    free = []       # per worker: {rname: available}
     for k in range(nworkers):
         res = []
         for r in range(nres):
@@ -51,12 +53,8 @@ def gen_spec(rng, profile="mixed"):
             res.append([rng.randrange(nres), rng.choice([1, 2])])      # a second key with the same name
         name = k if not (profile == "odd" and rng.random() < 0.1) else 0
         pools[rng.randrange(npools)].append({"name": name, "res": res})
-        av = {}
-        for r, q in res:
-            av[r] = av.get(r, 0) + q
-        free.append(av)
-    pools = [p for p in pools if p] or [[]]
-    # position of each worker: (pool index, index inside the pool), flat order = schedule()'s order
+    pools = [p for p in pools if p]
+    # position of each worker: (pool index, index inside the pool); flat order = schedule()'s order
     pos = [(pi, wi) for pi, p in enumerate(pools) for wi, _ in enumerate(p)]
     flat = [w for p in pools for w in p]
     free = []
@@ -65,15 +63,15 @@ def gen_spec(rng, profile="mixed"):
         for r, q in w["res"]:
             av[r] = av.get(r, 0) + q
         free.append(av)
-    ng = rng.choice([1, 1, 1, 2])
+    ng = 1 if profile == "dag" else rng.choice([1, 1, 1, 2])
     graphs = []
-    busy = profile in ("busy",) or (profile in ("mixed", "odd") and rng.random() < 0.3)
+    busy = profile == "busy" or (profile in ("mixed", "odd", "single") and rng.random() < 0.3)
     for g in range(ng):
-        nt = rng.randint(1, 4 if ng == 1 else 2)
+        nt = rng.randint(2, 4) if profile == "dag" else rng.randint(1, 4 if ng == 1 else 2)
         edges = []
         for j in range(1, nt):
             for i in range(j):
-                if rng.random() < (0.55 if i == j - 1 else 0.25):
+                if rng.random() < ((0.7 if profile == "dag" else 0.55) if i == j - 1 else 0.3):
                     edges.append([i, j])
         tasks = []
         done = []
@@ -87,15 +85,15 @@ def gen_spec(rng, profile="mixed"):
             t = {"strats": strats, "deadline": now + rng.randint(-2, 25), "release": rng.randint(0, now), "state": "released"}
             parents = [i for i, k in edges if k == j]
             parents_done = all(done[i] for i in parents)
-            st = "released"
             if not parents_done:
                 st = "virtual"
             else:
                 x = rng.random()
                 if busy:
-                    st = "running" if x < 0.35 else "completed" if x < 0.5 else "scheduled" if x < 0.6 else "released" if x < 0.95 else "virtual"
+                    st = ("running" if x < 0.35 else "completed" if x < 0.5 else "scheduled" if x < 0.6
+                          else "released" if x < 0.95 else "virtual")
                 else:
-                    st = "completed" if x < 0.12 else "virtual" if x < 0.17 else "released"
+                    st = "completed" if x < 0.1 else "virtual" if x < 0.14 else "released"
             if st in ("running", "scheduled"):
                 # needs a worker and a strategy that fits right now
                 opts_ = [(wk, si) for wk in range(len(flat)) for si, s in enumerate(strats)
@@ -122,16 +120,17 @@ def gen_spec(rng, profile="mixed"):
                     t["at"] = 0
                     t["on"] = [0, 0]
                     t["strat"] = 0
-            if st == "released" and rng.random() < 0.12:
+            if st == "released" and rng.random() < 0.1:
                 t["release"] = now + rng.randint(1, 3)
             t["state"] = st
             done.append(st == "completed")
             tasks.append(t)
         graphs.append({"tasks": tasks, "edges": edges})
-    opts = {"enforce": rng.random() < 0.5, "lookahead": rng.choice([0, 0, 3, 100]), "retract": rng.random() < 0.3,
-            "release_taskgraphs": rng.random() < 0.3,
+    look = rng.choice([0, 3, 100, 100]) if profile == "dag" else rng.choice([0, 0, 3, 100])
+    opts = {"enforce": rng.random() < 0.5, "lookahead": look, "retract": rng.random() < 0.3,
+            "release_taskgraphs": rng.random() < (0.5 if profile == "dag" else 0.3),
             "preemptive": (ng == 1 and rng.random() < 0.08)}
-    return {"now": now, "opts": opts, "pools": pools, "graphs": graphs}
+    return {"now": now, "opts": opts, "pools": pools or [[]], "graphs": graphs}
 
 
 # ----------------------------------------------------------------------------------------------
